@@ -50,8 +50,8 @@ func Expect(o *pkt.Info) Want {
 	case o.Proto == pkt.ProtoTCP:
 		if o.TCP == nil {
 			// fewer than 20 bytes of TCP header: nothing to number a reset with; the statement does
-			// not say whether an ICMP error is sent instead
-			return Want{Either, true, "tcp-header-short"}
+			// not say whether an ICMP error is sent instead (a reply, if any, must be that ICMP error)
+			return Want{Either, false, "tcp-header-short"}
 		}
 		return Want{Reply, true, "tcp"}
 	case o.HasICMP && (o.Version == 4 && o.ICMPIsError() || o.Version == 6 && o.ICMPType >= 1 && o.ICMPType <= 4):
@@ -108,9 +108,6 @@ func Check(packet []byte, o *pkt.Info, reply []byte, capOut, maxSize int) error 
 		return fmt.Errorf("reply has TTL / hop limit 0")
 	}
 	if w.TCP {
-		if o.TCP == nil {
-			return fmt.Errorf("a reply was produced for a TCP packet without a complete TCP header")
-		}
 		if r.Proto != pkt.ProtoTCP || r.TCP == nil {
 			return fmt.Errorf("original is TCP but the reply has protocol %d", r.Proto)
 		}
